@@ -641,3 +641,36 @@ Proof.
   destruct (eop_row s r H Hin Ha) as [_ Hn]. apply sstate_eqb_eq in Hp. rewrite Hl in Hn.
   rewrite (Hn Hp). rewrite andb_false_r. reflexivity.
 Qed.
+
+(* ------------------------------------------------------------------------------------------ *)
+(* The statements of props/C04.v                                                               *)
+(* ------------------------------------------------------------------------------------------ *)
+Theorem bridge_state_b (s : st) :
+  inv_core_b s = true -> end_of_phase_b s = true ->
+  exists s1 s2, revert_optional s = Ok s1 /\ delete_detached s1 = Ok s2 /\
+                inv_core_b s2 = true /\ quiescent_success_b s2 = true.
+Proof.
+  intros HI Hep. apply inv_core_b_iff in HI.
+  destruct (bridge_state s HI Hep) as [s1 [s2 [H1 [H2 [_ [HI2 Hq]]]]]].
+  exists s1, s2. repeat split; try assumption. apply inv_core_b_iff. exact HI2.
+Qed.
+
+Theorem end_of_phase_nothing_dispatchable (s : st) :
+  end_of_phase_b s = true -> forall l, dispatch_guard l s = false.
+Proof. intros H. apply eop_nothing_dispatchable. apply (eop_parts s H). Qed.
+
+Theorem noop_after_successful_history (cap : N) (hist : list xop) :
+  successful_history cap hist ->
+  let q := run_xops hist (init_st cap) in
+  (forall rehash, unchanged_b q rehash = true ->
+     run_ops (startup_ops q [] rehash) q = q /\ (forall l, dispatch_guard l q = false) /\
+     revert_optional q = Ok q /\ delete_detached q = Ok q) /\
+  (forall rehash, unchanged_watch_b q rehash = true ->
+     watch_ops q rehash = [] /\ run_ops (watch_ops q rehash) q = q /\
+     (forall l, dispatch_guard l q = false) /\
+     revert_optional q = Ok q /\ delete_detached q = Ok q).
+Proof.
+  intros H q. pose proof (bridge cap hist H) as Hq. split; intros rehash Hu.
+  - exact (restart_noop q rehash Hq Hu).
+  - exact (watch_noop q rehash Hq Hu).
+Qed.
